@@ -431,6 +431,7 @@ func (g *Graph) Run(ctx context.Context, opt *getoptions.GetOpt, args []string) 
 	semaphore := make(chan struct{}, g.maxParallel)
 LOOP:
 	for {
+		verifLoop(g)
 		select {
 		case iderr := <-done:
 			g.Vertices[iderr.ID].status = runDone
